@@ -100,13 +100,16 @@ Proof. vm_compute. repeat split. Qed.
    Witness: a singular message field occurring twice — the reference (and sem) merge the two occurrences,
    betterproto keeps the last one. *)
 Definition merge_bs : list byte := [x32; x02; x08; x01; x32; x02; x10; x02].      (* u = {a = 1}, then u = {r = [2]} *)
+Definition merge_rs : list record := match parse_wire merge_bs with Some rs => rs | None => [] end.
+Definition merge_sem : aval := match sem (S (length merge_bs)) ex_sc 11 merge_rs with Some a => a | None => ANone end.
+Definition merge_obj : obj := match parse ex_sc 11 merge_bs with Ok m => m | Err _ => new ex_sc 11 end.
 Theorem C02_decode_refines_unrestricted_refuted :
   exists sc c bs rs a m',
     wf_schema sc = true /\ builtins_std sc = true /\ parse_wire bs = Some rs /\
     sem (S (length bs)) sc c rs = Some a /\ parse sc c bs = Ok m' /\
     cv_eqb (cv_of_aval (abs_obj sc m')) (cv_of_aval a) = false /\ supported (S (length bs)) sc c rs = false.
 Proof.
-  exists ex_sc, 11%nat, merge_bs. eexists. eexists. eexists.
-  vm_compute. repeat split; reflexivity.
+  exists ex_sc, 11%nat, merge_bs, merge_rs, merge_sem, merge_obj.
+  vm_compute. repeat split.
 Qed.
 Print Assumptions C02_decode_refines_unrestricted_refuted.
